@@ -25,6 +25,7 @@ direct oracle:   the statement on the real CLI: after a fault-free run A loads e
 """
 import builtins
 import copy
+import io
 import json
 import multiprocessing as mp
 import os
@@ -204,6 +205,7 @@ FIXED_PAIRS = [
     ({"a": [1, 2, 3, 4]}, {"a": [9, 8, 1, 2, 3, 4]}),
     ({"a": {"1": [1, {"b": 2}]}}, {"a": {"1": [1, {"b": 3}], "z": "line1\nline2"}}),
     ({"old_type": "int", "new_type": "str"}, {"old_type": "int", "new_type": "float", "x": 1}),   # C20-TYPEHOOK
+    ({"old_type": 1, "new_type": {}}, {"old_type": 1, "new_type": {}, "x": 1}),                    # C20-TYPEHOOK (valid JSON fails to load)
     ({"q'\"": 1}, {"q'\"": 2}),                                                                       # C20-K5
     ({"k" + ESC: 1}, {"k" + ESC: 2}),                                                                # C20-K6
 ]
@@ -254,7 +256,7 @@ class Injector:
         self.fired = {}      # step -> text on disk at A right after the failing step (None = absent)
         self.tags = {}       # id(exception) -> (kind, step)
         self.keep = []
-        self.calls = {}
+        self.trace = []      # steps in the order the implementation attempts them
 
     # -- exceptions ------------------------------------------------------
     def tag(self, e, step):
@@ -263,6 +265,8 @@ class Injector:
             self.keep.append(e)
 
     def due(self, step, variant=None):
+        if not self.trace or self.trace[-1] != step:
+            self.trace.append(step)
         p = self.plan.get(step)
         if p is None or step in self.fired:
             return None
@@ -347,6 +351,7 @@ class Injector:
         self._real_add = dl.Delta.__add__
         inj = self
         builtins.open = self.open
+        io.open = self.open
         os.rename = self.rename
         os.replace = self.rename
         os.remove = self.remove
@@ -357,6 +362,7 @@ class Injector:
 
     def __exit__(self, *exc):
         builtins.open = _REAL["open"]
+        io.open = _REAL["open"]
         os.rename = _REAL["rename"]
         os.replace = _REAL["replace"]
         os.remove = _REAL["remove"]
@@ -487,7 +493,7 @@ def run_patch(a_text, b_text, delta_bytes, keep, debug, plan, prebak, work):
     with _REAL["open"](P, "rb") as f:
         p_same = f.read() == delta_bytes
     obs = {"A": read_text(A), "bak": read_text(A + ".bak"), "B": read_text(B), "P_same": p_same,
-           "cli": cli, "fired": dict(inj.fired), "output": output[-300:],
+           "cli": cli, "fired": dict(inj.fired), "output": output[-300:], "trace": list(inj.trace),
            "others": sorted(x for x in os.listdir(d) if x not in ("a.json", "a.json.bak", "b.json", "delta.pickle"))}
     shutil.rmtree(d, ignore_errors=True)
     return obs
@@ -517,7 +523,7 @@ def run_save_direct(a0, b0, content_ok, keep, plan, work):
             kind, step = inj.tags.get(id(e), ("exc" if isinstance(e, Exception) else "base", "untagged:" + type(e).__name__))
             outcome = ["raised", kind, step]
     obs = {"A": read_text(A), "bak": read_text(A + ".bak"), "B": read_text(B), "outcome": outcome,
-           "fired": dict(inj.fired), "new_text": new_text}
+           "fired": dict(inj.fired), "new_text": new_text, "trace": list(inj.trace)}
     shutil.rmtree(d, ignore_errors=True)
     return obs
 
@@ -525,6 +531,18 @@ def run_save_direct(a0, b0, content_ok, keep, plan, work):
 # --------------------------------------------------------------------------
 # model terms
 # --------------------------------------------------------------------------
+
+def dumps_placement(trace):
+    """where the implementation serialises, read off the call trace of a fault-free run"""
+    if "dumps" not in trace:
+        return None
+    i = trace.index("dumps")
+    if "backup" in trace and i < trace.index("backup"):
+        return "DFirst"
+    if "open" in trace and i < trace.index("open"):
+        return "DBeforeOpen"
+    return "DInside"
+
 
 def coq_zlist(l):
     return "[" + "; ".join(core.coq_Z(x) for x in l) + "]"
@@ -568,6 +586,74 @@ def make_coder(table):
 
 def doc_eq(x, y):
     return x == y
+
+
+# ---- the direct oracle: the property statement on the implementation, no reference to the model ----
+
+def oracle_reference(a_text, b_text, keep, o):
+    """fault-free run: [(clause, what)] for every clause of the statement that fails"""
+    from deepdiff.serialization import json_loads
+    out = []
+    b_loaded = json_loads(b_text)
+    try:
+        loaded = json_loads(o["A"]) if o["A"] is not None else None
+        load_err = None if o["A"] is not None else "A is missing"
+    except Exception as e:
+        loaded, load_err = None, repr(e)
+    if o["cli"] != ["exit", 0]:
+        out.append(("reproduces", "fault-free `deep patch` did not exit 0: %r %s" % (o["cli"], o["output"])))
+    elif load_err or not doc_eq(loaded, b_loaded):
+        out.append(("reproduces", "after diff --create-patch / patch, A does not load equal to B (A now: %.200r)" % (o["A"],)))
+    if keep and o["bak"] != a_text:
+        out.append(("backup", "--backup: A.bak does not hold the previous content of A (%.100r)" % (o["bak"],)))
+    if not keep and o["bak"] is not None:
+        out.append(("backup", "without --backup a stray A.bak remains"))
+    if o["B"] != b_text or not o["P_same"] or o["others"]:
+        out.append(("frame", "`deep patch` touched B, the patch file or created another file"))
+    return out, loaded, load_err
+
+
+def oracle_faulty(a_text, b_text, new_text, plan, prebak, o):
+    """a run under a fault plan: what fails, or None"""
+    cli = o["cli"]
+    nfired = len(o["fired"])
+    single_exc = (len(plan) == 1 and nfired == 1 and list(plan.values())[0][0] == "exc")
+    step = list(plan)[0] if len(plan) == 1 else None
+    if nfired == 0:
+        if cli != ["exit", 0] or o["A"] != new_text:
+            return "a run in which no fault was reached did not produce the patched content"
+    elif single_exc and (step in SAVE_STEPS_UP_TO_CLOSE or step in PRE_STEPS):
+        if o["A"] != a_text:
+            return "a single failure at '%s' left A without its original content (A now: %.80r)" % (step, o["A"])
+        if o["bak"] is not None and not prebak:
+            return "a single failure at '%s' left a stray A.bak" % step
+        if cli == ["exit", 0]:
+            return "a single failure at '%s' was swallowed (exit status 0)" % step
+    if cli != ["exit", 0] and a_text not in (o["A"], o["bak"]):
+        return "`deep patch` reported a failure and the original content of A survives neither in A nor in A.bak"
+    if cli == ["exit", 0] and o["A"] != new_text:
+        return "`deep patch` exited 0 although A does not hold the patched content"
+    if o["B"] != b_text or not o["P_same"] or o["others"]:
+        return "`deep patch` touched B, the patch file or created another file"
+    return None
+
+
+def oracle_direct(a0, b0, ok, keep, o):
+    """save_content_to_path called directly (faults may be natural: missing file, unserialisable content)"""
+    out = o["outcome"]
+    nfaults = len(o["fired"]) + (0 if ok or "dumps" in o["fired"] else 1)
+    if a0 and out[0] == "raised" and "OLD-A" not in (o["A"], o["bak"]):
+        return "save_content_to_path raised and lost the original content (neither in A nor in A.bak)"
+    if a0 and out[0] == "done" and (o["A"] != o["new_text"] or (o["bak"] == "OLD-A") != keep):
+        return "save_content_to_path returned normally without the new content in A / the backup kept iff keep_backup"
+    if a0 and not b0 and out[0] == "raised" and out[1] == "exc" and nfaults == 1 and out[2] in SAVE_STEPS_UP_TO_CLOSE and \
+            (o["A"] != "OLD-A" or o["bak"] is not None):
+        return "a single failure at '%s' was not rolled back" % out[2]
+    if a0 and nfaults == 0 and out[0] != "done":
+        return "save_content_to_path raised although nothing failed"
+    if o["B"] != "OTHER":
+        return "an unrelated file was touched"
+    return None
 
 
 def keys_of(doc):
@@ -626,7 +712,7 @@ def pair_task(args):
     from deepdiff.serialization import json_loads
     rng = random.Random(seed)
     work = tempfile.mkdtemp(prefix="p%d_" % idx, dir=scratch)
-    b_text = json.dumps(b_doc, indent=2)
+    b_text = json.dumps(b_doc, indent=2) + "\n"     # never the canonical text either
     res = {"cases": [], "fails": [], "counts": {}, "seen": [], "samples": []}
 
     def count(k, n=1):
@@ -646,37 +732,27 @@ def pair_task(args):
     # reference (fault-free, uninstrumented) runs: property clauses 1 and 2
     new_text = None
     resid = None
+    pos = None
     for keep in (False, True):
         o = run_patch(a_text, b_text, delta_bytes, keep, True, {}, False, work)
         case = dict(base_case, keep=keep, debug=True, faults={}, prebak=False)
         res["seen"].append((("ref", a_text, b_text, keep), idb != ida))
-        try:
-            loaded = json_loads(o["A"]) if o["A"] is not None else None
-            load_err = None
-        except Exception as e:
-            loaded, load_err = None, repr(e)
-        if o["cli"] != ["exit", 0]:
-            res["fails"].append((dict(case, clause="reproduces", observed=o), "fault-free `deep patch` did not exit 0: %r %s" % (o["cli"], o["output"])))
-        elif load_err or not doc_eq(loaded, b_loaded):
-            res["fails"].append((dict(case, clause="reproduces", observed=o),
-                                 "after diff --create-patch / patch, A does not load equal to B (A now: %.200r)" % (o["A"],)))
-        else:
+        fails, loaded, load_err = oracle_reference(a_text, b_text, keep, o)
+        for (clause, what) in fails:
+            res["fails"].append((dict(case, clause=clause, observed=o), what))
+        if not any(c == "reproduces" for c, _ in fails):
             count("oracle:reproduces_ok")
             if json.dumps(loaded, sort_keys=True) != json.dumps(b_loaded, sort_keys=True):
                 count("note:equal_but_not_type_identical(1==1.0==True)")
-        if keep and o["bak"] != a_text:
-            res["fails"].append((dict(case, clause="backup", observed=o), "--backup: A.bak does not hold the previous content of A (%.100r)" % (o["bak"],)))
-        if not keep and o["bak"] is not None:
-            res["fails"].append((dict(case, clause="backup", observed=o), "without --backup a stray A.bak remains"))
-        if o["B"] != b_text or not o["P_same"] or o["others"]:
-            res["fails"].append((dict(case, clause="frame", observed=o), "`deep patch` touched B, the patch file or created another file"))
         if new_text is None:
             new_text = o["A"]
+            pos = dumps_placement(o["trace"])
             if o["A"] is not None and not load_err:
                 resid = idb if doc_eq(loaded, b_loaded) else (ida if doc_eq(loaded, a_loaded) else 3)
-    if new_text is None or resid is None:
+    if new_text is None or resid is None or pos is None:
         shutil.rmtree(work, ignore_errors=True)
         return res
+    res["counts"]["placement:" + pos] = 1
     half = new_text[:len(new_text) // 2]
     table = {}
     # later entries win: the most specific meaning of a text is assigned last
@@ -707,8 +783,8 @@ def pair_task(args):
                 count("fired:%s/%s/%s" % (s, plan[s][1], plan[s][0]))
             res["seen"].append(((a_text, b_text, keep, debug, prebak, tuple(sorted(plan.items()))), nfired > 0 or idb != ida))
             # ---- correspondence case --------------------------------------
-            expr = "show_pipeline %s %s (Some %s) %s %s %s %s" % (
-                core.coq_bool(keep), core.coq_bool(debug), coq_zlist([ida]),
+            expr = "show_pipeline %s %s %s (Some %s) %s %s %s %s" % (
+                pos, core.coq_bool(keep), core.coq_bool(debug), coq_zlist([ida]),
                 "(Some %s)" % coq_zlist([-9]) if prebak else "None",
                 coq_zlist([idb]), core.coq_Z(resid), coq_sched(plan, o["fired"], code))
             cli = o["cli"]
@@ -716,24 +792,9 @@ def pair_task(args):
                    [cli[0], cli[1]]]
             res["cases"].append((expr, exp, case))
             # ---- direct oracle (independent of the model) ------------------
-            what = None
-            single_exc = (len(plan) == 1 and nfired == 1 and list(plan.values())[0][0] == "exc")
-            step = list(plan)[0] if len(plan) == 1 else None
-            if len(plan) == 0 or nfired == 0:
-                if cli != ["exit", 0] or o["A"] != new_text:
-                    what = "a fault-free run (no planned fault was reached) did not produce the patched content"
-            elif single_exc and (step in SAVE_STEPS_UP_TO_CLOSE or step in PRE_STEPS):
+            what = oracle_faulty(a_text, b_text, new_text, plan, prebak, o)
+            if len(plan) == 1 and nfired == 1 and list(plan.values())[0][0] == "exc" and list(plan)[0] not in ("restore", "remove"):
                 count("oracle:single_fault_checked")
-                if o["A"] != a_text:
-                    what = "a single failure at '%s' left A without its original content (A now: %.80r)" % (step, o["A"])
-                elif o["bak"] is not None and not prebak:
-                    what = "a single failure at '%s' left a stray A.bak" % step
-                elif cli == ["exit", 0]:
-                    what = "a single failure at '%s' was swallowed (exit status 0)" % step
-            if what is None and a_text not in (o["A"], o["bak"]):
-                what = "the original content of A survives neither in A nor in A.bak"
-            if what is None and (o["B"] != b_text or not o["P_same"] or o["others"]):
-                what = "`deep patch` touched B, the patch file or created another file"
             if what:
                 res["fails"].append((dict(case, clause="restore", observed=o), what))
     if idx < 3:
@@ -742,7 +803,7 @@ def pair_task(args):
     count("pairs:docs_equal" if ida == idb else "pairs:docs_differ")
     for k in kinds:
         count("edit:" + k)
-    count("result:" + {idb: "equals_B", ida: "equals_A_not_B", 3: "neither"}[resid if resid != idb else idb])
+    count("result:" + ("equals_B" if resid == idb else ("equals_A_not_B" if resid == ida else "neither")))
     shutil.rmtree(work, ignore_errors=True)
     return res
 
@@ -755,6 +816,8 @@ def direct_task(args):
     work = tempfile.mkdtemp(prefix="d_", dir=scratch)
     res = {"cases": [], "fails": [], "counts": {}, "seen": [], "samples": []}
     save_points = [p for p in POINTS if p[0] not in PRE_STEPS]
+    pos = dumps_placement(run_save_direct(True, False, True, False, {}, work)["trace"]) or "DInside"
+    res["counts"]["direct:placement:" + pos] = 1
     plans = [{}]
     for (s, v) in save_points:
         for kind in ("exc", "base"):
@@ -779,8 +842,8 @@ def direct_task(args):
                             table[h] = [-4]
                             table[o["new_text"]] = [2, 2]
                         code = make_coder(table)
-                        expr = "show_save %s %s %s %s %s" % (
-                            core.coq_bool(keep), coq_opt_content([1] if a0 else None), coq_opt_content([-9] if b0 else None),
+                        expr = "show_save %s %s %s %s %s %s" % (
+                            pos, core.coq_bool(keep), coq_opt_content([1] if a0 else None), coq_opt_content([-9] if b0 else None),
                             coq_opt_content([2, 2] if ok else None), coq_sched(plan, o["fired"], code))
                         exp = [sx_file(code(o["A"])), sx_file(code(o["bak"])), sx_file(code(o["B"])), o["outcome"]]
                         case = {"direct": True, "a_present": a0, "bak_present": b0, "serialisable": ok, "keep": keep,
@@ -789,15 +852,7 @@ def direct_task(args):
                         res["seen"].append((("direct", a0, b0, ok, keep, tuple(sorted(plan.items()))), True))
                         res["counts"]["direct:outcome:" + o["outcome"][0]] = res["counts"].get("direct:outcome:" + o["outcome"][0], 0) + 1
                         # direct oracle: nothing is ever lost; single Exception => restored
-                        what = None
-                        if a0 and "OLD-A" not in (o["A"], o["bak"]):
-                            what = "save_content_to_path lost the original content (neither in A nor in A.bak)"
-                        elif a0 and not b0 and o["outcome"][0] == "raised" and o["outcome"][1] == "exc" and \
-                                len(o["fired"]) + (0 if ok else 1) == 1 and o["outcome"][2] in SAVE_STEPS_UP_TO_CLOSE and \
-                                (o["A"] != "OLD-A" or o["bak"] is not None):
-                            what = "a single failure at '%s' was not rolled back" % o["outcome"][2]
-                        elif o["B"] != "OTHER":
-                            what = "an unrelated file was touched"
+                        what = oracle_direct(a0, b0, ok, keep, o)
                         if what:
                             res["fails"].append((dict(case, clause="restore", observed=o), what))
     shutil.rmtree(work, ignore_errors=True)
@@ -819,7 +874,7 @@ def _docs(case):
 def m_typehook(case):
     """some JSON object in A or B has both keys old_type and new_type: the
     loader's object_hook replaces type-name strings in it by Python types."""
-    if case.get("clause") != "reproduces":
+    if case.get("clause") not in ("reproduces", "diff"):
         return False
     return any("old_type" in d and "new_type" in d for doc in _docs(case) for d in dicts_of(doc))
 
@@ -908,40 +963,30 @@ def replay(ctx, data):
         o = run_save_direct(case["a_present"], case["bak_present"], case["serialisable"], case["keep"], plan, ctx.scratch)
         ctx.evaluations += 1
         print("replay(direct): %r" % (o,))
-        if case["a_present"] and "OLD-A" not in (o["A"], o["bak"]):
-            ctx.fail(dict(case, observed=o), "save_content_to_path lost the original content")
-        elif case["a_present"] and not case["bak_present"] and len(plan) == 1 and o["outcome"][:2] == ["raised", "exc"] and \
-                o["outcome"][2] in SAVE_STEPS_UP_TO_CLOSE and (o["A"] != "OLD-A" or o["bak"] is not None):
-            ctx.fail(dict(case, observed=o), "a single failure at '%s' was not rolled back" % o["outcome"][2])
+        what = oracle_direct(case["a_present"], case["bak_present"], case["serialisable"], case["keep"], o)
+        if what:
+            ctx.fail(dict(case, clause="restore", observed=o), what)
         return
     if "a_text" not in case:
         return run(ctx)
-    from deepdiff.serialization import json_loads
     a_text, b_text = case["a_text"], case["b_text"]
-    rc, delta_bytes, dexc, _ = run_diff(a_text, b_text, ctx.scratch)
+    rc, delta_bytes, dexc, untouched = run_diff(a_text, b_text, ctx.scratch)
     print("replay: diff exit=%r exception=%r patch bytes=%d" % (rc, dexc, len(delta_bytes or b"")))
-    if rc != 0:
-        ctx.fail(dict(case, clause="diff"), "`deep diff A B --create-patch` failed")
+    if rc != 0 or not untouched:
+        ctx.fail(dict(case, clause="diff", exit_code=rc, exception=dexc), "`deep diff A B --create-patch` failed or modified its inputs (exit %r, %s)" % (rc, dexc))
         return
+    keep, debug, prebak = case.get("keep", False), case.get("debug", True), case.get("prebak", False)
     plan = {s: tuple(v) for s, v in case.get("faults", {}).items()}
-    o = run_patch(a_text, b_text, delta_bytes, case.get("keep", False), case.get("debug", True), plan, case.get("prebak", False), ctx.scratch)
+    ref = run_patch(a_text, b_text, delta_bytes, keep, True, {}, False, ctx.scratch)
     ctx.evaluations += 1
-    print("replay: A=%r\n        A.bak=%r\n        cli=%r fired=%r" % (o["A"], o["bak"], o["cli"], sorted(o["fired"])))
-    what = None
-    if not o["fired"]:
-        try:
-            ok = o["cli"] == ["exit", 0] and json_loads(o["A"]) == json_loads(b_text)
-        except Exception:
-            ok = False
-        if not ok:
-            what, clause = "after diff --create-patch / patch, A does not load equal to B", "reproduces"
-        elif case.get("keep") and o["bak"] != a_text or (not case.get("keep") and not case.get("prebak") and o["bak"] is not None):
-            what, clause = "backup kept iff --backup fails", "backup"
-    else:
-        if a_text not in (o["A"], o["bak"]):
-            what, clause = "the original content of A survives neither in A nor in A.bak", "restore"
-        elif len(plan) == 1 and list(plan.values())[0][0] == "exc" and list(plan)[0] in (SAVE_STEPS_UP_TO_CLOSE | PRE_STEPS) and \
-                (o["A"] != a_text or (o["bak"] is not None and not case.get("prebak")) or o["cli"] == ["exit", 0]):
-            what, clause = "a single failure at '%s' was not rolled back / reported" % list(plan)[0], "restore"
-    if what:
-        ctx.fail(dict(case, clause=clause, observed=o), what)
+    print("replay: fault-free run: A=%r A.bak=%r cli=%r" % (ref["A"], ref["bak"], ref["cli"]))
+    fails, _loaded, _err = oracle_reference(a_text, b_text, keep, ref)
+    for (clause, what) in fails:
+        ctx.fail(dict(case, clause=clause, observed=ref), what)
+    if plan or prebak:
+        o = run_patch(a_text, b_text, delta_bytes, keep, debug, plan, prebak, ctx.scratch)
+        ctx.evaluations += 1
+        print("replay: faults=%r fired=%r\n        A=%r\n        A.bak=%r\n        cli=%r" % (plan, sorted(o["fired"]), o["A"], o["bak"], o["cli"]))
+        what = oracle_faulty(a_text, b_text, ref["A"], plan, prebak, o)
+        if what:
+            ctx.fail(dict(case, clause="restore", observed=o), what)
